@@ -89,7 +89,7 @@ class Act(_Action):
 
     def applyTo(self, agent, simulation):
         STATE.log.append((now(), f"apply:{getattr(agent, 'name', '?')}:{self.tag}"))
-        _site("apply:" + self.tag)
+        _site("apply:" + str(self.tag))
 
     def __repr__(self):
         return f"Act({self.tag!r})"
